@@ -853,13 +853,11 @@ fn prop(c: &Case) -> Verdict {
             }
             Op::P(es) => {
                 cursor = None;
-                let l: Vec<(u16, Vec<u8>, [u8; 20])> = es
-                    .iter()
-                    .map(|(k, n, id)| (gix_object::tree::EntryMode::from(kind_of(*k)).0, n.clone(), st.resolve(id)))
-                    .collect();
+                // the tree as it was stored (ids were resolved before it was stored)
+                let _ = es;
                 if let Res::Put(id) = res {
-                    if !l.is_empty() {
-                        or.odb.insert(*id, l);
+                    if let Some(k) = st.ids.iter().position(|x| x == id) {
+                        or.odb.insert(*id, st.plain[k].clone());
                     }
                 }
                 true
